@@ -56,7 +56,7 @@ def r1(ctx: Ctx, prog: sf.SqlProgram) -> None:
             if 'Pending' not in froms or tos <= {'Pending', '<unchanged>'}:
                 continue  # cannot take a job out of Pending
             n += 1
-            cons = f'{r.file}::{name}::UPDATE jobs SET state = {text(v)[:50]}'
+            cons = f'sql::{name}::UPDATE jobs SET state = {text(v)[:50]}'
             if name == 'commit_batch_update':
                 ok = ('cur_update_committed', False) in [(text(c), p) for c, p in guard]
                 ctx.check(ok, 'R1', cons, 'the commit-time promotion is not confined to the not-yet-committed branch', r.file, r.line_of(st))
